@@ -361,6 +361,18 @@ def ob_data_analysis(typ, m):
         blk[:3, :3] = exp
         blk[3:, 3:] = exp
         out.append(Eq("calc_covariance_matrix_of_prob_dists == direct sum", tot, blk, 1e-9))
+        # distributions of unequal length (a three-outcome measurement between two two-outcome ones): 2 + 3 + 2 blocks at offsets 0, 2, 5
+        def cov_of(v):
+            k = len(v)
+            return np.array([[((v[i] if i == j else 0.0) - v[i] * v[j]) / 7 for j in range(k)] for i in range(k)], dtype=object)
+        q2a, q2b = [ql[0], 1 - ql[0]], [ql[1], 1 - ql[1]]
+        mix = DA.calc_covariance_matrix_of_prob_dists([SymNd(q2a), q, SymNd(q2b)], 7)
+        blk = np.zeros((7, 7), dtype=object)
+        blk[:2, :2] = cov_of(q2a)
+        blk[2:5, 2:5] = exp
+        blk[5:, 5:] = cov_of(q2b)
+        out.append(Holds("unequal lengths: the total covariance is (2+3+2) x (2+3+2)", tuple(np.shape(mix)) == (7, 7)))
+        out.append(Eq("unequal lengths: calc_covariance_matrix_of_prob_dists == direct sum of the blocks at the running offsets", mix, blk, 1e-9))
         return out
     nvmax = c03.n_var(typ, 2, m, False)
     return FnOb(reals("a0_", nvmax, -1.0, 1.0) + reals("a1_", nvmax, -1.0, 1.0) + reals("t", nvmax, -1.0, 1.0) + reals("q", 3, 0.0, 1.0), run, expect_nonlinear=True)
